@@ -207,7 +207,7 @@ def gen_op(rng: random.Random, cfg: dict, kind: str | None = None) -> dict:
     elif kind in ("save", "export", "reimport", "restart"):
         fmts = ["internal", "csv", "geff2", "geff3"]
         if kind == "export":
-            fmts = ["csv", "csv_tif", "csv_names", "geff2", "geff3"]
+            fmts = ["csv", "csv_tif", "csv_names", "csv_names_tif", "geff2", "geff3"]
         if kind == "save":
             fmts = ["internal"]
         if kind == "restart":
@@ -222,7 +222,7 @@ def gen_op(rng: random.Random, cfg: dict, kind: str | None = None) -> dict:
             n = rng.randint(1, 3)
             op["subset"] = [_sel(rng, ["any", "leaf", "root", "div_child", "isolated"]) for _ in range(n)]
             if rng.random() < 0.2:
-                op["subset"] = rng.choice(["all", "leaves", "odd", "last_frame", "roots", "not_roots"])
+                op["subset"] = rng.choice(["all", "leaves", "odd", "last_frame", "roots", "not_roots", "none"])
         if kind == "reimport" and op["fmt"].startswith("geff"):
             op["with_pos"] = rng.random() < 0.5
         if kind in ("export",) and op["fmt"].startswith("geff"):
